@@ -359,6 +359,11 @@ func (f *Frame) numberCalls() {
 
 func debugRefName(d *ssa.DebugRef) string {
 	if id, ok := d.Expr.(*ast.Ident); ok {
+		// go/ssa also emits a DebugRef for the field identifier of a selector (x.f): that is not a variable named f, and
+		// must never capture a contract name (a callee parameter `id` would otherwise be read as the caller's `job.id`)
+		if v, isVar := d.Object().(*types.Var); isVar && v.IsField() {
+			return ""
+		}
 		return id.Name
 	}
 	return ""
